@@ -65,6 +65,9 @@ SETTERS = [
     # resources that only ever grow during a run: a source line far longer than the initial line buffer, a deep macro nest
     "\tcpu 6809\n\tfcb " + ",".join(["1"] * 300) + " ; " + "x" * 900, "\tcpu z80\n\tdb " + ",".join(["2"] * 330) + "\n; " + "x" * 3000,
     "\tcpu z80\nlng\tmacro p\n\tdb " + "1," * 300 + "p\n\tendm\n\tlng " + "9" * 900,
+    # constructs left open at several levels at the end of the source
+    "\tphase 256\n\tnop\n\tphase 512\n\tnop", "\tsection a1\n\tsection b1\n\tnop", "\tif 1\n\tif 1\n\tnop", "\tsave\n\tlisting off\n\tsave\n\tcpu z80",
+    "\tsegment data\n\tphase 64\n\tsegment code\n\tphase 128",
     # a source that ends while a prefix instruction's window is still open
     "\tcpu 80c167\n\textp r5,#2\n\tmov r1,8120h", "\tcpu 80c167\n\textr #1", "\tcpu 80c167\n\textsr #1,#3\n\tnop", "\tcpu 80c167\n\tatomic #4\n\tnop",
     "\tcpu 8086\n\trep", "\tcpu z80\n\tdb 0ddh", "\tcpu 68hc12\n\tfcb $18", "\tcpu 6309\n\tfcb $10",
